@@ -41,11 +41,114 @@ type capListener struct {
 func (l capListener) Accept() (net.Conn, error) {
 	c, err := l.Listener.Accept()
 	if err == nil {
+		if !l.s.TLS {
+			c = &spyConn{Conn: c} // clear text: WebSocket control frames (pings) can be observed on the way in
+		}
 		l.s.mu.Lock()
 		l.s.raw[c.RemoteAddr().String()] = c
 		l.s.mu.Unlock()
 	}
 	return c, err
+}
+
+// spyConn parses the client-to-server byte stream of a ws:// connection (HTTP request, then frames) without
+// changing it, and reports ping control frames, which the WebSocket library answers by itself and never shows.
+type spyConn struct {
+	net.Conn
+	mu     sync.Mutex
+	http   bool   // the HTTP request has ended
+	tail   []byte // last bytes of the HTTP request seen (to find CRLF CRLF across reads)
+	hdr    []byte // frame header bytes collected so far
+	skip   uint64 // payload bytes still to skip
+	pings  int
+	onPing func()
+}
+
+func (c *spyConn) Read(p []byte) (int, error) {
+	n, err := c.Conn.Read(p)
+	if n > 0 {
+		c.feed(p[:n])
+	}
+	return n, err
+}
+
+func (c *spyConn) feed(b []byte) {
+	c.mu.Lock()
+	var fire []func()
+	for len(b) > 0 {
+		if !c.http {
+			c.tail = append(c.tail, b[0])
+			b = b[1:]
+			if len(c.tail) > 4 {
+				c.tail = c.tail[len(c.tail)-4:]
+			}
+			if string(c.tail) == "\r\n\r\n" {
+				c.http = true
+			}
+			continue
+		}
+		if c.skip > 0 {
+			k := uint64(len(b))
+			if k > c.skip {
+				k = c.skip
+			}
+			c.skip -= k
+			b = b[k:]
+			continue
+		}
+		c.hdr = append(c.hdr, b[0])
+		b = b[1:]
+		if len(c.hdr) < 2 {
+			continue
+		}
+		need := 2
+		l7 := int(c.hdr[1] & 0x7f)
+		if l7 == 126 {
+			need += 2
+		} else if l7 == 127 {
+			need += 8
+		}
+		if c.hdr[1]&0x80 != 0 {
+			need += 4
+		}
+		if len(c.hdr) < need {
+			continue
+		}
+		var plen uint64
+		switch l7 {
+		case 126:
+			plen = uint64(c.hdr[2])<<8 | uint64(c.hdr[3])
+		case 127:
+			for i := 0; i < 8; i++ {
+				plen = plen<<8 | uint64(c.hdr[2+i])
+			}
+		default:
+			plen = uint64(l7)
+		}
+		if c.hdr[0]&0x0f == 0x9 {
+			c.pings++
+			if c.onPing != nil {
+				fire = append(fire, c.onPing)
+			}
+		}
+		c.hdr = c.hdr[:0]
+		c.skip = plen
+	}
+	c.mu.Unlock()
+	for _, f := range fire {
+		f()
+	}
+}
+
+// OnPing registers a callback for ping frames received on this connection (ws:// only).
+func (c *WSConn) OnPing(f func()) bool {
+	if s, ok := c.Raw.(*spyConn); ok {
+		s.mu.Lock()
+		s.onPing = f
+		s.mu.Unlock()
+		return true
+	}
+	return false
 }
 
 func ListenWS() (*WSServer, error) { return listenWS(nil) }
@@ -157,7 +260,11 @@ func (c *WSConn) Close() {
 
 // Reset drops it with RST.
 func (c *WSConn) Reset() {
-	if t, ok := c.Raw.(*net.TCPConn); ok {
+	raw := c.Raw
+	if s, ok := raw.(*spyConn); ok {
+		raw = s.Conn
+	}
+	if t, ok := raw.(*net.TCPConn); ok {
 		t.SetLinger(0)
 	}
 	c.Close()
